@@ -74,3 +74,33 @@ CLAIMED = {
               "protocol on unwinding exits of do_collection, constructor callbacks dropping the boxed context, slice-builder "
               "prefix discipline. The continued-history behaviour follows from invariants holding at unwinding exits."),
 }
+
+CLAIMED.update({
+    "C12": _c("type-checked facts (variances_of, impl predicates, lifetime-only transmute inventory with CFG dominance) + compile-fail witness corpus with compiling twins",
+              "Variance, 'static-impl and re-branding facts are global facts of the type-checked program, so they settle the "
+              "question for all client programs; the escape corpus (88 probes, each compiled twice against the current tree) pins "
+              "each escape route through each callback entry point. rustc's own lifetime checking is trusted."),
+    "C13": _c("impl-table / signature / who-may-call rules over the type-checked program + compile-fail witnesses (incl. the three exploit programs)",
+              "Enumerates every way safe code can obtain a &Write<T> or an unlocked cell (transmute producers, DerefWrite / IndexWrite / "
+              "Unlock implementors, lock.rs mutators) and checks each against a reviewed soundness criterion. Found and fixed the "
+              "unsound DerefWrite impls (fix 96d609a). The closing meta-theorem is a paper argument (DESIGN.md §7)."),
+    "C17": _c("sibling term agreement on uninterpreted terms (abstract interpretation of alloc vs dealloc MIR) + abstract-address interpretation of the flag accessors + no-address-arithmetic scan",
+              "Decides request/release layout agreement, writer/reader offset agreement and the flag encode/decode round trip for all "
+              "tag states from the MIR; the arithmetic inside Layout::extend/pad_to_align (alignment, disjointness for every size) "
+              "is delegated to std's contract and listed as not decided."),
+    "C19": _c("no-address-arithmetic scan over conversion closures + ordering-domain interpretation of the ZstCache guard + type-signature conjuring lint + witnesses",
+              "Identity of every named conversion as a structural fact of its MIR; the ZstCache guard over all orderings of "
+              "size/align/MAX_ALIGN; the conjuring lint over the whole public API (found ZstCache::alloc_zst, fix f123ef0)."),
+    "C20": _c("item + MIR scan for shared mutable state in every feature configuration, with a positive-control fixture crate; construction who-may-call rules",
+              "The crate has no static mut / non-Freeze static / thread-local; all collector state is created per arena. This is the "
+              "right level: independence is the absence of a shared channel, which is a whole-program structural fact."),
+})
+for e in ENGINES:
+    if e["name"] == "gcv-driver":
+        e["serves_properties"] = sorted(set(e["serves_properties"]) | {"C12", "C13", "C17", "C19", "C20"})
+    if e["name"] == "gcv-rules":
+        e["serves_properties"] = sorted(set(e["serves_properties"]) | {"C12", "C13", "C17", "C19", "C20"})
+    if e["name"] == "gcv-typestate":
+        e["serves_properties"] = sorted(set(e["serves_properties"]) | {"C17", "C19"})
+ENGINES.append({"name": "gcv-witness", "path": "/verif/gcv/witness.py", "serves_properties": ["C03", "C12", "C13", "C15", "C19"],
+                "kind_free_text": "compile-fail / compile-pass witness corpus (probes/<ID>/*.rs): each program is compiled twice with rustc +nightly --emit=metadata against an rlib of the current tree (with and without --cfg bad); never run"})
